@@ -103,16 +103,19 @@ class BufGen:
         self.n = 0
         self.tag = 0
         self.count = 0
+        self.scope: list[str] = []  # loop-carried buffers / buffers picked by a conditional that are visible here
 
     def bufs(self):
         return [f"%a{i}" for i in range(N_ARGS)] + [f"%b{i}" for i in range(self.p.get("n_allocs", N_ALLOCS))]
 
     def stmts(self, k, depth, ivs, inloop):
         out = []
+        mark = len(self.scope)
         for _ in range(k):
             if self.count >= self.p["max_stmts"]:
                 break
             out.append(self.stmt(depth, ivs, inloop))
+        del self.scope[mark:]
         return out
 
     def stmt(self, depth, ivs, inloop):
@@ -133,7 +136,7 @@ class BufGen:
             if k == "copy":
                 return {"k": "copy", "src": s, "dst": d, "tag": self.tag}
             return {"k": "gen", "ins": [s], "out": d, "tag": self.tag}
-        extra = ["%sel0"] if p.get("select") else []
+        extra = (["%sel0"] if p.get("select") else []) + self.scope
         if k == "copy":
             s, d = r.sample(self.bufs() + extra, 2)
             return {"k": "copy", "src": s, "dst": d, "tag": self.tag}
@@ -155,6 +158,22 @@ class BufGen:
             self.n += 1
             iv = f"%i{self.n}"
             node = {"k": "for", "iv": iv, "lb": "%c0", "ub": r.choice(["%n0", "%n1", "%n2", "%n0", "%n1", "%c1", "%c2"]), "step": "%c1"}
+            if p.get("rotation") and r.random() < p["rotation"]:
+                # ping-pong buffers rotated through iter_args: the loop carries (current, next) and yields (next, current);
+                # typically the data mover refills "next" while a kernel works on "current"
+                cur, nxt = f"%cu{self.n}", f"%nx{self.n}"
+                a, b = r.sample(self.bufs()[N_ARGS:], 2)
+                node["rot"] = [cur, nxt, a, b]
+                self.scope += [cur, nxt]
+                head = []
+                if r.random() < 0.8:
+                    self.tag += 2
+                    others = [x for x in self.bufs()[N_ARGS:] if x not in (a, b)]
+                    head = [{"k": "copy", "src": r.choice([f"%a{j}" for j in range(N_ARGS)]), "dst": nxt, "tag": self.tag - 1}, {"k": "gen", "ins": [cur], "out": r.choice(others), "tag": self.tag}]
+                    r.shuffle(head)
+                node["body"] = head + self.stmts(r.randint(0, 2), depth + 1, ivs + [iv], True)
+                del self.scope[-2:]
+                return node
             node["body"] = self.stmts(r.randint(1, 3), depth + 1, ivs + [iv], True)
             return node
         if p.get("exec_region") and r.random() < p["exec_region"]:
@@ -164,6 +183,12 @@ class BufGen:
         node = {"k": "if", "cond": r.choice(["%p0", "%p1"])}
         node["then"] = self.stmts(r.randint(1, 2), depth + 1, ivs, inloop)
         node["else"] = self.stmts(r.randint(0, 2), depth + 1, ivs, inloop)
+        if p.get("pick") and r.random() < p["pick"]:
+            # the conditional hands one of two local buffers on under a new name, visible in the rest of this block
+            self.n += 1
+            name = f"%pk{self.n}"
+            node["res"] = [name] + r.sample(self.bufs()[N_ARGS:], 2)
+            self.scope.append(name)
         return node
 
     def program(self):
@@ -206,6 +231,8 @@ def buffers_of(st):
         if key in st:
             out.add(st[key])
     out.update(st.get("ins", []))
+    out.update(st.get("rot", [])[2:])
+    out.update(st.get("res", [])[1:])
     for key in ("body", "then", "else", "entry", "b1", "b2"):
         for x in st.get(key, []):
             out |= buffers_of(x)
@@ -271,9 +298,24 @@ def emit(ast) -> str:
                         if b == s["buf"]:
                             e(ind, f"{w} = memref.subview {b}[{off}][2][1] : {T1} to {buf_type(w)}")
                             nested_of(ind, w)
+            elif k == "for" and s.get("rot"):
+                cur, nxt, a, b = s["rot"]
+                e(ind, f'%rr{cur[3:]}:2 = scf.for {s["iv"]} = {s["lb"]} to {s["ub"]} step {s["step"]} iter_args({cur} = {a}, {nxt} = {b}) -> ({T1}, {T1}) {{')
+                stmts(ind + 1, s["body"])
+                e(ind + 1, f"scf.yield {nxt}, {cur} : {T1}, {T1}")
+                e(ind, "}")
             elif k == "for":
                 e(ind, f'scf.for {s["iv"]} = {s["lb"]} to {s["ub"]} step {s["step"]} {{')
                 stmts(ind + 1, s["body"])
+                e(ind, "}")
+            elif k == "if" and s.get("res"):
+                name, tb, eb = s["res"]
+                e(ind, f'{name} = scf.if {s["cond"]} -> ({T1}) {{')
+                stmts(ind + 1, s["then"])
+                e(ind + 1, f"scf.yield {tb} : {T1}")
+                e(ind, "} else {")
+                stmts(ind + 1, s["else"])
+                e(ind + 1, f"scf.yield {eb} : {T1}")
                 e(ind, "}")
             elif k == "if":
                 e(ind, f'scf.if {s["cond"]} {{')
@@ -380,9 +422,9 @@ def shrink_body(body):
         yield body[:i] + body[i + 1 :]
     for i, s in enumerate(body):
         k = s["k"]
-        if k == "for":
+        if k == "for" and not s.get("rot"):
             yield body[:i] + s["body"] + body[i + 1 :]
-        if k == "if":
+        if k == "if" and not s.get("res"):
             yield body[:i] + s["then"] + body[i + 1 :]
             yield body[:i] + s["else"] + body[i + 1 :]
         if k == "xr":
